@@ -22,6 +22,7 @@ fn main() {
         tool_error("usage: clv <rec|replay> <component> [--key value]...");
     }
     install_quiet_panic_hook();
+    start_hang_watchdog();
     hooks::install();
     let args = Args::parse(&argv[3..]);
     match (argv[1].as_str(), argv[2].as_str()) {
@@ -31,6 +32,7 @@ fn main() {
         #[cfg(feature = "std")]
         ("replay", "blockvalue") => blockval::replay_blockvalue(&args),
         ("replay", "splice") => splice::replay_splice(&args),
+        ("replay", "codetext") => registry::replay_codetext(&args),
         ("replay", "optval") => optval::replay_optval(&args),
         ("rec", "optval") => optval::rec_optval(&args),
         ("replay", "observe") => observe::replay_observe(&args),
